@@ -65,6 +65,8 @@ func init() {
 				{Scenario: "c11_burst", Params: mustJSON(BurstParams{Membership: "static", MaxN: n}), Bound: b, Shards: 8},
 				{Scenario: "c11_burst", Params: mustJSON(BurstParams{Membership: "dynamic", MaxN: 1, Hold: true}), Bound: b, Shards: 2},
 				{Scenario: "c11_burst", Params: mustJSON(BurstParams{Membership: "static", MaxN: 2, Tight: true}), Bound: 1, Shards: 8, Note: "two notifications at the same instant (bus + GET /rebalance), all single deviations"},
+				{Scenario: "c02_sessions", Params: mustJSON(SessionsParams{ReadOnly: true}), Bound: 0, Shards: 2, Note: "re-open after a rebalance resumes from the checkpoints stored NOW (read-only mode: they were advanced by their owners since the process started), for vBuckets that stay in the range and for gained ones"},
+				{Scenario: "c02_sessions", Params: mustJSON(SessionsParams{}), Bound: 0, Shards: 2, Note: "the same with this member's own saves between the rebalances"},
 				{Scenario: "c10_register", Params: mustJSON(struct{}{}), Bound: 0, Note: "leader-assigned membership: a numbering that repeats the one in effect (e.g. from the new leader after a fail-over) is not announced, so it causes no interruption"},
 				{Scenario: "c11_burst", Params: mustJSON(BurstParams{Membership: "static", MaxN: 1, Mitigation: true}), Bound: 0, Shards: 2, Note: "events waiting at the rollback-mitigation gate when the rebalance closes the stream"},
 				{Scenario: "c11_burst", Params: mustJSON(BurstParams{Membership: "dynamic", MaxN: 1, Mitigation: true}), Bound: 0, Shards: 2, Note: "events waiting at the rollback-mitigation gate when the rebalance closes the stream"},
